@@ -264,7 +264,20 @@ def check(prop, tier, seed, runs=None, workers=None, wall_cap=None, selftest=Tru
     known = []
     seen_clauses = set()
     fl = findings_mod.load()
-    for f in sorted(agg["failures"], key=lambda f: f["run_index"]):
+    # per clause prefer the first failing run that fails again when its own events are replayed alone (a run whose failure
+    # depended on state left in the worker process by EARLIER runs - a module-level cache in the system - does not)
+    ordered = sorted(agg["failures"], key=lambda f: f["run_index"])
+    chosen = []
+    for clause in dict.fromkeys(f["clause"] for f in ordered):
+        cands = [f for f in ordered if f["clause"] == clause]
+        pick = None
+        for f in cands[:6]:
+            r = run_replay(sim, f["knobs"], f["events"])
+            if r.failures and r.failures[0][0] == clause:
+                pick = f
+                break
+        chosen.append(pick or cands[0])
+    for f in sorted(chosen, key=lambda f: f["run_index"]):
         if f["clause"] in seen_clauses or len(seen_clauses) >= 3:
             continue
         seen_clauses.add(f["clause"])
@@ -301,6 +314,17 @@ def check(prop, tier, seed, runs=None, workers=None, wall_cap=None, selftest=Tru
         out = None if nondet else subprocess.run(cmd, capture_output=True, text=True, timeout=600)
         if out is not None and out.returncode == 2:
             harness_error(f"replay {path} failed in a fresh process: {out.stdout[-300:]} {out.stderr[-300:]}")
+        if out is not None and out.returncode == 0 and len(events) < len(f["events"]):
+            # the minimised list fails here but not in a fresh process: state left in THIS process by earlier replays (a module-level
+            # cache in the system) influenced the minimisation.  Fall back to the run as recorded.
+            with open(path) as fh:
+                rp = json.load(fh)
+            rp["events"], rp["minimisation_invalidated_by_process_state"] = f["events"], True
+            with open(path, "w") as fh:
+                json.dump(rp, fh, indent=1, default=str)
+            out = subprocess.run(cmd, capture_output=True, text=True, timeout=600)
+            events = f["events"]
+            msg += "  [not minimised: state left in the process by earlier executions influences the system]"
         if out is not None and (out.returncode != 1 or f"clause={clause}" not in out.stdout):
             # same events, different verdict in another process: the system under test is not a function of the event list
             msg += "  [NON-DETERMINISTIC across processes: a fresh interpreter " + \
